@@ -692,8 +692,8 @@ class InfoLinesStream(Stream):
             "comment openers and closers, look-alikes such as `SPDX-License-Identifier:MIT`), with and without a final line feed; one text in "
             "eight carries a snippet marker and enough filler to exceed 4096 bytes.  The driver evaluates the line-by-line hypotheses of "
             "C02_extract_exact (Spec.InfoLine.ok on the generated END pattern: every condition about one line alone) and the size / snippet "
-            "hypothesis of C02_file_exact; where they hold extract_reuse_info(text) and reuse_info_of_file on the real file must return "
-            "exactly the planted licence expressions, notices and contributors and nothing else (generator ground truth), and the "
+            "hypothesis of C02_file_exact / C02_file_exact_line_endings; where they hold extract_reuse_info(text) and reuse_info_of_file "
+            "on the real file in LF, CRLF and CR form must return exactly the planted licence expressions, notices and contributors and nothing else (generator ground truth), and the "
             "theorem's text and promise must be the planted ones; non-trivial = hypotheses hold")
 
     def cases(self, tier, rng):
@@ -752,7 +752,9 @@ class InfoLinesStream(Stream):
             t = canon_info(info)
         except Exception as e:
             t = "EXC:%s" % type(e).__name__
-        return t + "##" + impl_info_of_bytes(text.encode("utf-8"))
+        return "##".join([t] + [impl_info_of_bytes(text.replace("\n", eol).encode("utf-8")) for eol in self.EOLS])
+
+    EOLS = ("\n", "\r\n", "\r")          # C02_file_exact_line_endings: id, toCRLF, toCR
 
     def model_lines(self, case):
         ps = self.parts(case)
@@ -802,14 +804,16 @@ class InfoLinesStream(Stream):
         if None in exprs:
             return True               # hypothesis `hparse` of C02_file_exact fails (not generated)
         want = canon(exprs, set(pcpr), set(pcon))
-        got_text, got_file = impl_out.split("##")
+        got = impl_out.split("##")
         self._hyp = getattr(self, "_hyp", set())
         self._hyp.add(self.key(case))
-        if got_text != want:
+        if got[0] != want:
             return False
-        if fit == "1":
-            self._fit = getattr(self, "_fit", 0) + 1
-            return got_file == (want if (plic or pcpr) else canon([], [], []))
+        for flag, got_file in zip(fit, got[1:]):
+            if flag == "1":
+                self._fit = getattr(self, "_fit", 0) + 1
+                if got_file != (want if (plic or pcpr) else canon([], [], [])):
+                    return False
         return True
 
     def key(self, case):
